@@ -166,7 +166,7 @@ def _counter_increment(F, f, b, t, defs):
 def run(F, res, tier):
     reviewed = R.load_reviewed().get("C15", {})
     from lib.inventory import Inventory
-    INV = Inventory(F, reviewed, "M1/")
+    INV = Inventory(F, reviewed, "M1/", discharged=lambda f_, b_, k_, dt_, df_: discharge(F, f_, b_, k_, dt_, df_))
     entries = [S + e for e in ENTRIES]
     for e in entries:
         if e not in F.fns:
@@ -602,4 +602,4 @@ def client_named_paths_are_read_as_regular_files(F, res, rule="M13"):
             res.ob(rule, "regular-file/%s" % FL.short(p), "a path named by the client is read only after its file type was looked at (a FIFO would block "
                    "the main loop for good)", ok, where=f.loc(t["ln"]), how="the text depends on %s; readers that check the file type: %s" % (
                        sorted(reads), sorted(FL.short(g) for g in guarded_readers)))
-    res.floor("main-loop handlers that store a text read from a client-named path", n, 2)
+    res.floor("main-loop handlers that store a text read from a client-named path", n, 1)
